@@ -53,6 +53,9 @@ def run(ctx):
     # from its write set is missing when it is validated again, and both overlapping writers end up committed)
     from .c04 import sets_read_only
     sets_read_only(ctx, P, commit, "R8", ("write_set",), 2)
+    # R10 (= C02-R5): a finished transaction never changes state again
+    from .c02 import state_machine
+    state_machine(ctx, P, ctx.effects(), "R10")
     from .c04 import atomic_validate_publish
     atomic_validate_publish(ctx, P, commit, "R9", [("TransactionError", "WriteConflict")])
     cx = FlowCx(P, commit)
